@@ -244,3 +244,35 @@ prop("C08",
           "distinct = distinct JSON input; non-trivial = at least one sample",
      assumptions=["box parsing is mp4ff's: the tables handed to the model are the ones the harness wrote", "uint64/int64 wrap-around is modelled; durations beyond int64 are outside the property"],
      note=GPMF_NOTE + " MP4 container parsing (mp4ff) is assumed.")
+
+LT_NOTE = ("Trusted: Coq kernel + vm_compute; correspondence harness (reflective dumper of laptimer.DB into the generic value, generators, gzip/cp1252 oracles). "
+           "Modelled not verified: encoding/xml marshalling order/omitempty/indentation and EscapeText (ported), fmt %.Nf (exact decimal expansion, round half even), "
+           "time.Format/Parse for the two layouts, fmt.Sscanf %d, strconv.ParseFloat on plain decimals; assumed: strconv's shortest float formatting round-trips "
+           "(plain float64 fields carry the text Go printed), compress/gzip, x/text charmap.")
+
+prop("C01",
+     axioms="reals",
+     design_ref="DESIGN.md section 5 C01",
+     technique="Rocq proof of the text round trip (escape + filter + strict reader, all strings) + byte-exact in-Coq model of the encoder and of decode-after-encode checked against the real codec on generated databases; database-level round trip is PARTIAL (correspondence, not theorem)",
+     text="Proved: every text of valid XML characters survives escape -> line filter -> strict reader; integer-like leaves are fixed points; the faithful model exhibits D22 "
+          "(C01_reencode_omitempty_refuted).  Not proved as a theorem (partial): dec(enc v) = quant v and enc(quant v) = enc v for all databases - this is checked per generated "
+          "database: the model's encoder must produce the very bytes Encode wrote, Decode's value must equal the model's quant(v) leaf by leaf, the re-encoding must be identical, "
+          "gzip must gunzip to the plain bytes and the windows-1252 transcoding must decode to the same value; the reflected xml-tag schema must equal the recorded one.",
+     rule="one case = one database inside the round-trip domain: 0-3 laps (0-4 fixes each with optional acceleration/OBD/TPMS blocks, intermediates, videos, tags), 0-1 vehicle lists with "
+          "gears/tyres; text over an alphabet weighted to quotes, ampersands, angle brackets, tabs, CR/LF, ]]>, literal entity look-alikes, cp1252 symbols and astral characters; floats "
+          "near half a unit of the printed precision; durations up to 200 minutes and sub-centisecond; dates 1969-2068 in arbitrary zones; optional fixed-decimal fields never in the "
+          "vanishing class (that class is the known finding D22, exercised by the corpus); distinct = distinct JSON; non-trivial = at least one lap or vehicle",
+     assumptions=["values outside the statement's domain (negative durations, tags with commas, multi-token speed ratings, years outside 1969-2068) are not generated"],
+     note=LT_NOTE)
+
+prop("C13",
+     axioms="reals",
+     design_ref="DESIGN.md section 5 C13",
+     technique="Rocq proof (any text is recovered through the strict reader with invalid characters substituted; tab/LF literal; no raw '<'; declaration first) + every generated document is parsed by the Coq strict XML reader and must yield exactly the intended tree",
+     text="Proved for all texts (valid or not): escape + line filter gives per character the predefined entity / literal tab and LF / &#xD; / the character / U+FFFD, the strict reader "
+          "returns the cleaned text and stops at the next tag, no raw '<' is written, every document starts with the UTF-8 declaration.  Per generated document (also with control "
+          "characters, U+FFFE, invalid UTF-8): the bytes Encode wrote must be accepted by the Coq strict reader (five entities, numeric references to valid characters only, matching "
+          "tags, one root) and the parsed tree must equal the intended tree whose leaves are the model's field syntax; gzip output must be a complete stream of exactly those bytes.",
+     rule="120 in-domain databases (as C01) + 120 databases with arbitrary text (NUL, C0 controls, U+FFFE, 0xFF, lone surrogates as invalid UTF-8); distinct = distinct JSON; non-trivial = at least one lap or vehicle",
+     assumptions=["'independent strict parser' = the Coq reader Xml/Lex.v, written from the XML 1.0 grammar subset, independent of encoding/xml"],
+     note=LT_NOTE)
